@@ -712,6 +712,8 @@ func workC13(c *shardCtx) {
 	}
 	c.res.Notes["history_documents"] = len(historyDocs)
 	c.res.Notes["expression_universe"] = len(exprs)
+	// ---------- "the same every time, up to the unspecified member order": every sequence of map orders
+	mapOrderPass(c, "C13", false)
 }
 
 func histTexts(X []string, h []int) []string {
@@ -723,7 +725,7 @@ func histTexts(X []string, h []int) []string {
 }
 
 func finishC13(r *harness.Run, k map[string]int64, notes map[string]interface{}) harness.Coverage {
-	r.Rule = "for each expression of the scenario universe (every built-in incl. calls on array/object literals stored in the AST, core and projection sentences) breadth-first search over Search histories on one compiled object, 8 documents incl. failing ones; state = digest of (all private fields of the compiled expression, every package-level variable); searched to a fixpoint (all histories of any length) plus all histories up to length 2 (thorough 3) replayed call by call; every result equals the fresh-Compile result and the one-shot Search result (map order fixed by the instrumented build, so equality is exact). Parser: BFS over Parse histories on one Parser over an alphabet of 60 valid / lexer-failing / parser-failing expressions, state = VerifParserState, plus all histories up to length 2 (thorough 3); each Parse equals NewParser().Parse on AST render and error (type, message, offset). Process-global state: every sequence of two (thorough three) one-shot Search + Compile calls with different or equal expressions of the alphabet in one process must answer like the first call did. Non-trivial = transitions; distinct by history"
+	r.Rule = "for each expression of the scenario universe (every built-in incl. calls on array/object literals stored in the AST, core and projection sentences) breadth-first search over Search histories on one compiled object, 8 documents incl. failing ones; state = digest of (all private fields of the compiled expression, every package-level variable); searched to a fixpoint (all histories of any length) plus all histories up to length 2 (thorough 3) replayed call by call; every result equals the fresh-Compile result and the one-shot Search result (map order fixed by the instrumented build, so equality is exact). Parser: BFS over Parse histories on one Parser over an alphabet of 60 valid / lexer-failing / parser-failing expressions, state = VerifParserState, plus all histories up to length 2 (thorough 3); each Parse equals NewParser().Parse on AST render and error (type, message, offset). Member order: for 75 order-dependent expressions x 14 documents every sequence of map-iteration orders (each range over a map is a choice point; deviations from the sorted order bounded by 2, thorough 3, and unbounded for calls with few requests) must return an outcome the reference model admits for some member order. Process-global state: every sequence of two (thorough three) one-shot Search + Compile calls with different or equal expressions of the alphabet in one process must answer like the first call did. Non-trivial = transitions; distinct by history"
 	r.Assumptions = []string{"fixpoint: if every operation maps the single reachable state to itself and answers as a fresh object does, all longer histories are covered", "object-member order is harness-decided in this build"}
 	r.States = k["states"] + k["parser_states"]
 	r.Transitions = k["transitions"] + k["parser_transitions"]
@@ -737,6 +739,10 @@ func finishC13(r *harness.Run, k map[string]int64, notes map[string]interface{})
 	r.Note("parser_states", k["parser_states"])
 	r.Note("parser_histories_replayed", k["parser_histories"])
 	r.Note("process_global_call_sequences", k["global_histories"])
+	r.Note("map_order_exploration", fmt.Sprintf("%d (expression, document) pairs, %d executions over %d map-order requests, %d pairs explored without deviation bound, %d pairs with more than one admissible outcome observed", k["maporder_pairs"], k["maporder_executions"], k["maporder_requests"], k["maporder_pairs_explored_without_bound"], k["maporder_pairs_with_several_outcomes"]))
+	r.Evaluations += k["maporder_executions"]
+	r.Traces += k["maporder_executions"]
+	r.Transitions += k["maporder_requests"]
 	r.Evaluations += k["global_histories"]
 	r.Traces += k["global_histories"]
 	for kk, v := range notes {
